@@ -23,7 +23,8 @@ from vlib.front import unparse, dotted, const_value, AnchorMissing
 from vlib.shape import Shape, Space, Ix, Q, D, BoolT, StrT, NoneT, SizeOf, UNK, is_unk, Arr, Rec, Tup, B
 from obligations.shape_tables import (model_attrs, M, Tmpl, Clu, Chan, Samp, Loc, Spike, Probe, AMP, AMPWH, UM, KA, F, RATE)
 
-FLOOR = 26
+FLOOR = 15          # decided obligations below this = the analysis lost its footing (exit 2); clean tree: 44
+RULES = ('C09.A0', 'C09.U1', 'C09.U2', 'C09.U3', 'C09.U4')          # every obligation group must report (holds / violated / undecided): a group that vanishes silently is an analysis error
 EXPLANATION = ('shape engine over the summary methods of TemplateModel: every array is typed by index space per axis, physical dimension '
                '(sorter amplitude, whitening, counts, seconds, samples, micrometres, unit factor, kilo) and provenance tags (ptp/max/argmax over '
                'which axis, coordinate component); results are compared with the dimension and provenance the definitions imply')
